@@ -544,6 +544,61 @@ class History(object):
         self.step_mods[(pkey, ckey)] = {"changes": changes, "before": before, "null_static": null_static, "stale_previous": stale_prev}
         return [(pkey, ckey, inst)]
 
+    def op_rekey(self):
+        """reassign a clustering key component (or a partition key component) of a persisted instance, optionally change other
+        columns too, then save(): the documented behaviour is an INSERT of the whole instance under the new primary key; the row
+        under the old key is left as it is"""
+        rng, sp = self.rng, self.sp
+        if sp.counter:
+            return None
+        cands = sorted((k for k in self.inst if k[1] is not None and not any(e[:2] == k for e in self.emptied)), key=repr)
+        if not cands:
+            return None
+        pkey, ckey = rng.choice(cands)
+        inst = self.inst[(pkey, ckey)]
+        # the INSERT names every non-null column of the instance, static ones included: the instance must not be stale for them
+        for c in sp.static:
+            if not same(getattr(inst, c.attr), self.get_shadow(pkey, ckey, c)):
+                return None
+        change_ck = bool(sp.ck) and rng.random() < 0.7
+        for _ in range(20):
+            npkey, nckey = list(pkey), list(ckey)
+            cols, target = (sp.ck, nckey) if change_ck else (sp.pk, npkey)
+            for i in rng.sample(range(len(cols)), rng.randint(1, len(cols))):
+                target[i] = gen_scalar(rng, cols[i].kind, small=rng.random() < 0.3)
+            npkey, nckey = tuple(npkey), tuple(nckey)
+            if (npkey, nckey) != (pkey, ckey) and (npkey, nckey) not in self.used_keys:
+                break
+        else:
+            return None
+        if not change_ck and npkey in self.shadow and sp.static:
+            return None             # the instance's static values would overwrite another partition's: keep the expectation simple
+        self.used_keys.add((npkey, nckey))
+        changes = {}
+        if sp.reg and rng.random() < 0.6:
+            for c in rng.sample(sp.reg, rng.randint(1, min(2, len(sp.reg)))):
+                changes[c.attr] = self.mutate(c, getattr(inst, c.attr))
+        self.note("re-key %r -> %r, also %r, save()" % ((pkey, ckey), (npkey, nckey), changes))
+        target = self.writer(inst, None, opts_ok=False, is_instance=True)
+        for c, v in list(zip(sp.pk, npkey)) + list(zip(sp.ck, nckey)):
+            if not same(getattr(inst, c.attr), v):
+                setattr(inst, c.attr, v)
+        for a, v in changes.items():
+            setattr(inst, a, v)
+        target.save()
+        self.srow(npkey, nckey)
+        for c in sp.reg:
+            self.set_shadow(npkey, nckey, c, _plain_copy(getattr(inst, c.attr)))
+        for c in sp.static:
+            if norm(getattr(inst, c.attr)) is not None:
+                self.set_shadow(npkey, nckey, c, _plain_copy(getattr(inst, c.attr)))
+        del self.inst[(pkey, ckey)]
+        self.inst[(npkey, nckey)] = inst
+        out = [(npkey, nckey, inst)]
+        if npkey != pkey:
+            out.append((pkey, ckey, None))
+        return out
+
     def op_reload(self):
         rng, sp = self.rng, self.sp
         rows = [k for k in self.existing_rows() if any(v is not None for v in self.shadow[k[0]]["rows"][k[1]].values())]
@@ -706,8 +761,10 @@ class History(object):
             kind, res = "create", self.op_create()
         elif r < 0.26:
             kind, res = "create-static-only", self.op_create_static_only()
-        elif r < 0.56:
+        elif r < 0.5:
             kind, res = "modify", self.op_modify()
+        elif r < 0.56:
+            kind, res = "re-key", self.op_rekey()
         elif r < 0.64:
             kind, res = "reload", self.op_reload()
         elif r < 0.8:
@@ -845,8 +902,11 @@ def run(ctx):
     ctx.assume("create() is only issued for primary keys not used before in the history (an INSERT over an existing row keeps the columns it "
                "does not name - upsert semantics, not a mapper defect); deleted counter rows are not written again; tracked instances are "
                "dropped when a blind update or a delete touches their row; static columns are assigned fresh values only")
-    ctx.assume("deleting a static-only instance (null clustering key), primary-key changes, db_field renames (C37), LWT results, "
+    ctx.assume("deleting a static-only instance (null clustering key), db_field renames (C37), LWT results, "
                "conditional batches and USING TIMESTAMP on conditional statements are not generated; batches never touch a partition twice")
+    ctx.assume("re-keying = assigning new clustering / partition key values to a persisted, non-stale instance and save(): the whole instance "
+               "must be readable under the new key (always a key unused so far), the row under the old key stays as it is; only save() is "
+               "used (update() is a partial write by documentation), not inside batches, not on counter tables")
     ctx.assume("whether Cassandra accepts clustering restrictions on statements that touch only static columns differs by release: accepted")
     rng = ctx.rng
     n_hist = ctx.scale(1500, 100000)
@@ -966,4 +1026,5 @@ def run(ctx):
     ctx.floor_counters = {"histories": 600, "steps_verified": 2500, "statements_executed_by_the_interpreter": 10000, "selects_answered": 4000,
                           "statements_applied:INSERT": 600, "statements_applied:UPDATE": 600, "statements_applied:DELETE": 300,
                           "statements_applied:BATCH": 80, "rows_equal_to_shadow": 2500, "instances_constructed_from_interpreter_rows": 3000,
-                          "acting_instances_equal_to_shadow": 1000, "steps:blind-update": 200, "steps:modify": 400, "steps:delete": 100}
+                          "acting_instances_equal_to_shadow": 1000, "steps:blind-update": 200, "steps:modify": 400, "steps:delete": 100,
+                          "steps:re-key": 60}
